@@ -18,6 +18,25 @@ fn palette_header(k: u32, salt: u8) -> Header {
     }
 }
 
+fn ser(v: &Value) -> Vec<u8> {
+    let mut out = Vec::new();
+    coset::cbor::ser::into_writer(v, &mut out).unwrap();
+    out
+}
+
+/// RFC 8152 structure for builder-made protected headers (empty -> h'', else the encoded map).
+fn reference(ctx: &str, headers: &[&Header], tail: &[&[u8]]) -> Vec<u8> {
+    let mut a = vec![Value::Text(ctx.to_string())];
+    for h in headers {
+        let b = if **h == Header::default() { vec![] } else { (*h).clone().to_vec().unwrap() };
+        a.push(Value::Bytes(b));
+    }
+    for t in tail {
+        a.push(Value::Bytes(t.to_vec()));
+    }
+    ser(&Value::Array(a))
+}
+
 struct Spec(HashMap<String, u32>);
 impl Spec {
     fn get(&self, k: &str) -> Option<u32> {
@@ -46,6 +65,7 @@ struct Outcome {
     dirty: bool,
     refused_ok: bool,
     notes: Vec<String>,
+    want_created: Option<Vec<u8>>,
 }
 
 fn verdict(o: &Outcome, seen: Option<(Vec<u8>, Vec<u8>)>, same_aad: bool) -> String {
@@ -56,6 +76,11 @@ fn verdict(o: &Outcome, seen: Option<(Vec<u8>, Vec<u8>)>, same_aad: bool) -> Str
         Some(c) => c.clone(),
         None => return "MATCH nothing-created".into(),
     };
+    if let Some(w) = &o.want_created {
+        if *w != made_data {
+            return format!("MISMATCH creator saw {} but RFC 8152 prescribes {}", hex::encode(&made_data), hex::encode(w));
+        }
+    }
     if o.dirty {
         return "MATCH premise-not-met".into();
     }
@@ -95,14 +120,16 @@ fn sign1(sp: &Spec) -> String {
     // methods: protected unprotected create try_create payload create_detached
     let mut b = CoseSign1Builder::new();
     let mut o = Outcome::default();
+    #[allow(unused_mut, unused_variables)]
+    let (mut cur_prot, mut cur_payload): (Header, Vec<u8>) = (Header::default(), vec![]);
     let mut has_payload = false;
     let mut i = 0;
     while let Some(k) = sp.get(&format!("step{}", i)) {
         let salt = i as u8;
         match k {
-            0 => { b = b.protected(palette_header(sp.get(&format!("hdr.s{}", i)).unwrap_or(0), salt)); if o.created.is_some() { o.dirty = true; } }
+            0 => { cur_prot = palette_header(sp.get(&format!("hdr.s{}", i)).unwrap_or(0), salt); b = b.protected(cur_prot.clone()); if o.created.is_some() { o.dirty = true; } }
             1 => { b = b.unprotected(palette_header(sp.get(&format!("hdr.s{}", i)).unwrap_or(0), salt)); }
-            4 => { b = b.payload(format!("payload{}", i).into_bytes()); has_payload = true; if o.created.is_some() { o.dirty = true; } }
+            4 => { cur_payload = format!("payload{}", i).into_bytes(); b = b.payload(cur_payload.clone()); has_payload = true; if o.created.is_some() { o.dirty = true; } }
             2 | 3 | 5 | 6 => {
                 let made = format!("made{}", i).into_bytes();
                 let fails = (k == 3 || k == 6) && sp.get(&format!("creator-fails{}", i)) == Some(1);
@@ -132,6 +159,7 @@ fn sign1(sp: &Spec) -> String {
                 o.created = Some((saw, made));
                 o.detached = k == 5 || k == 6;
                 o.dirty = false;
+                o.want_created = Some(reference("Signature1", &[&cur_prot], &[AAD, if o.detached { DET } else { &cur_payload }]));
             }
             _ => {}
         }
@@ -154,17 +182,20 @@ fn sign1(sp: &Spec) -> String {
 fn sign(sp: &Spec) -> String {
     let mut b = CoseSignBuilder::new();
     let mut o = Outcome::default();
+    #[allow(unused_mut, unused_variables)]
+    let (mut cur_prot, mut cur_payload): (Header, Vec<u8>) = (Header::default(), vec![]);
     let mut has_payload = false;
     let mut n = 0usize;
     let mut i = 0;
     while let Some(k) = sp.get(&format!("step{}", i)) {
         let salt = i as u8;
         match k {
-            0 => { b = b.protected(palette_header(sp.get(&format!("hdr.s{}", i)).unwrap_or(0), salt)); if o.created.is_some() { o.dirty = true; } }
+            0 => { cur_prot = palette_header(sp.get(&format!("hdr.s{}", i)).unwrap_or(0), salt); b = b.protected(cur_prot.clone()); if o.created.is_some() { o.dirty = true; } }
             1 => { b = b.unprotected(palette_header(sp.get(&format!("hdr.s{}", i)).unwrap_or(0), salt)); }
-            4 => { b = b.payload(format!("payload{}", i).into_bytes()); has_payload = true; if o.created.is_some() { o.dirty = true; } }
+            4 => { cur_payload = format!("payload{}", i).into_bytes(); b = b.payload(cur_payload.clone()); has_payload = true; if o.created.is_some() { o.dirty = true; } }
             2 | 3 | 5 | 6 => {
-                let sig = CoseSignatureBuilder::new().protected(palette_header(sp.get(&format!("hdr.sg{}", i)).unwrap_or(0), salt + 50)).build();
+                let sig_hdr = palette_header(sp.get(&format!("hdr.sg{}", i)).unwrap_or(0), salt + 50);
+                let sig = CoseSignatureBuilder::new().protected(sig_hdr.clone()).build();
                 let made = format!("made{}", i).into_bytes();
                 let fails = (k == 3 || k == 6) && sp.get(&format!("creator-fails{}", i)) == Some(1);
                 let mut saw = vec![];
@@ -195,6 +226,7 @@ fn sign(sp: &Spec) -> String {
                 n += 1;
                 o.detached = k == 5 || k == 6;
                 o.dirty = false;
+                o.want_created = Some(reference("Signature", &[&cur_prot, &sig_hdr], &[AAD, if o.detached { DET } else { &cur_payload }]));
             }
             _ => {}
         }
@@ -215,19 +247,23 @@ fn sign(sp: &Spec) -> String {
 }
 
 macro_rules! mac_family {
-    ($fname:ident, $builder:ty, $msg:ty) => {
+    ($fname:ident, $builder:ty, $msg:ty, $ctx:literal) => {
         fn $fname(sp: &Spec) -> String {
             // methods: protected unprotected create try_create payload
             let mut b = <$builder>::new();
             let mut o = Outcome::default();
+            #[allow(unused_mut, unused_variables)]
+            let (mut cur_prot, mut cur_payload): (Header, Vec<u8>) = (Header::default(), vec![]);
+    #[allow(unused_mut, unused_variables)]
+    let (mut cur_prot, mut cur_payload): (Header, Vec<u8>) = (Header::default(), vec![]);
             let mut has_payload = false;
             let mut i = 0;
             while let Some(k) = sp.get(&format!("step{}", i)) {
                 let salt = i as u8;
                 match k {
-                    0 => { b = b.protected(palette_header(sp.get(&format!("hdr.s{}", i)).unwrap_or(0), salt)); if o.created.is_some() { o.dirty = true; } }
+                    0 => { cur_prot = palette_header(sp.get(&format!("hdr.s{}", i)).unwrap_or(0), salt); b = b.protected(cur_prot.clone()); if o.created.is_some() { o.dirty = true; } }
                     1 => { b = b.unprotected(palette_header(sp.get(&format!("hdr.s{}", i)).unwrap_or(0), salt)); }
-                    4 => { b = b.payload(format!("payload{}", i).into_bytes()); has_payload = true; if o.created.is_some() { o.dirty = true; } }
+                    4 => { cur_payload = format!("payload{}", i).into_bytes(); b = b.payload(cur_payload.clone()); has_payload = true; if o.created.is_some() { o.dirty = true; } }
                     2 | 3 => {
                         let made = format!("made{}", i).into_bytes();
                         let fails = k == 3 && sp.get(&format!("creator-fails{}", i)) == Some(1);
@@ -246,6 +282,7 @@ macro_rules! mac_family {
                         }
                         o.created = Some((saw, made));
                         o.dirty = false;
+                        o.want_created = Some(reference($ctx, &[&cur_prot], &[AAD, &cur_payload]));
                     }
                     _ => {}
                 }
@@ -262,20 +299,24 @@ macro_rules! mac_family {
         }
     };
 }
-mac_family!(mac0, CoseMac0Builder, CoseMac0);
-mac_family!(mac, CoseMacBuilder, CoseMac);
+mac_family!(mac0, CoseMac0Builder, CoseMac0, "MAC0");
+mac_family!(mac, CoseMacBuilder, CoseMac, "MAC");
 
 macro_rules! enc_family {
-    ($fname:ident, $builder:ty, $msg:ty) => {
+    ($fname:ident, $builder:ty, $msg:ty, $ctx:literal) => {
         fn $fname(sp: &Spec) -> String {
             // methods: protected unprotected create try_create
             let mut b = <$builder>::new();
             let mut o = Outcome::default();
+            #[allow(unused_mut, unused_variables)]
+            let (mut cur_prot, mut cur_payload): (Header, Vec<u8>) = (Header::default(), vec![]);
+    #[allow(unused_mut, unused_variables)]
+    let (mut cur_prot, mut cur_payload): (Header, Vec<u8>) = (Header::default(), vec![]);
             let mut i = 0;
             while let Some(k) = sp.get(&format!("step{}", i)) {
                 let salt = i as u8;
                 match k {
-                    0 => { b = b.protected(palette_header(sp.get(&format!("hdr.s{}", i)).unwrap_or(0), salt)); if o.created.is_some() { o.dirty = true; } }
+                    0 => { cur_prot = palette_header(sp.get(&format!("hdr.s{}", i)).unwrap_or(0), salt); b = b.protected(cur_prot.clone()); if o.created.is_some() { o.dirty = true; } }
                     1 => { b = b.unprotected(palette_header(sp.get(&format!("hdr.s{}", i)).unwrap_or(0), salt)); }
                     2 | 3 => {
                         let made = format!("made{}", i).into_bytes();
@@ -294,6 +335,7 @@ macro_rules! enc_family {
                         if saw_pt != pt { o.notes.push("cipher did not receive the plaintext".into()); }
                         o.created = Some((saw, made));
                         o.dirty = false;
+                        o.want_created = Some(reference($ctx, &[&cur_prot], &[AAD]));
                     }
                     _ => {}
                 }
@@ -310,20 +352,22 @@ macro_rules! enc_family {
         }
     };
 }
-enc_family!(encrypt0, CoseEncrypt0Builder, CoseEncrypt0);
-enc_family!(encrypt, CoseEncryptBuilder, CoseEncrypt);
+enc_family!(encrypt0, CoseEncrypt0Builder, CoseEncrypt0, "Encrypt0");
+enc_family!(encrypt, CoseEncryptBuilder, CoseEncrypt, "Encrypt");
 
 fn recipient(sp: &Spec) -> String {
     let ctxs = [EncryptionContext::CoseEncrypt, EncryptionContext::CoseEncrypt0, EncryptionContext::EncRecipient,
                 EncryptionContext::MacRecipient, EncryptionContext::RecRecipient];
     let mut b = CoseRecipientBuilder::new();
     let mut o = Outcome::default();
+    #[allow(unused_mut, unused_variables)]
+    let (mut cur_prot, mut cur_payload): (Header, Vec<u8>) = (Header::default(), vec![]);
     let mut rctx = 2usize;
     let mut i = 0;
     while let Some(k) = sp.get(&format!("step{}", i)) {
         let salt = i as u8;
         match k {
-            0 => { b = b.protected(palette_header(sp.get(&format!("hdr.s{}", i)).unwrap_or(0), salt)); if o.created.is_some() { o.dirty = true; } }
+            0 => { cur_prot = palette_header(sp.get(&format!("hdr.s{}", i)).unwrap_or(0), salt); b = b.protected(cur_prot.clone()); if o.created.is_some() { o.dirty = true; } }
             1 => { b = b.unprotected(palette_header(sp.get(&format!("hdr.s{}", i)).unwrap_or(0), salt)); }
             2 | 3 => {
                 rctx = sp.get(&format!("rctx{}", i)).unwrap_or(0) as usize;
@@ -345,6 +389,8 @@ fn recipient(sp: &Spec) -> String {
                 }
                 o.created = Some((saw, made));
                 o.dirty = false;
+                let names = ["Encrypt", "Encrypt0", "Enc_Recipient", "Mac_Recipient", "Rec_Recipient"];
+                o.want_created = Some(reference(names[rctx], &[&cur_prot], &[AAD]));
             }
             _ => {}
         }
